@@ -259,6 +259,11 @@ def _S(phase, sid):
     return [phase, 'S', sid]
 
 
+def _F(phase, fid):
+    """a program run as an instruction that exits with 1: HARD_ERROR ([assert]: FAIL) - execution goes on with [cleanup]"""
+    return [phase, 'F', fid]
+
+
 def _hist_items(places, phase, form, hist):
     """Items of one part-A case: the uses of `places` (all in `phase`, same program form) under one timeout history.
     -> list of items, or None when the history does not exist there."""
@@ -328,6 +333,40 @@ def _part_a(tier):
             for mode in modes:
                 yield {'part': 'A', 'mode': mode, 'items': items, 'kill': None,
                        'label': {'phase': phase, 'form': form, 'hist': hist, 'places': pls}}
+
+
+def _part_f(tier):
+    """Timeout histories around a FAILING step: the timeout in force when an instruction fails is the one [cleanup]
+    runs under (nothing puts the default back), and nothing after the failure is started."""
+    n = 0
+    for fphase in INSTR_PHASES:
+        for tphase in INSTR_PHASES:
+            if PHASE_ORDER.index(tphase) > PHASE_ORDER.index(fphase):
+                continue
+            for text, val in (('7', 7), ('none', None), ('3600', 3600)):
+                n += 1
+                items = [_S(tphase, 's0'), _T(tphase, text, val), _S(tphase, 's1')]
+                if tphase != fphase:
+                    items.append(_S(fphase, 's2'))
+                items.append(_F(fphase, 'f1'))
+                # none of these is reached (the failing phase halts; later phases except [cleanup] are skipped)
+                items.append(_S(fphase, 'n1'))
+                for ph in INSTR_PHASES:
+                    if PHASE_ORDER.index(ph) > PHASE_ORDER.index(fphase) and ph != CLEANUP:
+                        items.append(_S(ph, 'n_' + ph.replace('-', '')))
+                if fphase != CLEANUP:
+                    items += [_S(CLEANUP, 'c1'), _T(CLEANUP, '11', 11), _S(CLEANUP, 'c2')]
+                yield {'part': 'F', 'mode': 'normal', 'items': items, 'kill': None,
+                       'label': {'fail_phase': fphase, 'timeout_phase': tphase, 'value': text}}
+    # no timeout instruction at all: the default stays in force in [cleanup]
+    for fphase in INSTR_PHASES[:-1]:
+        yield {'part': 'F', 'mode': 'normal', 'items': [_S(SETUP, 's0'), _F(fphase, 'f1'), _S(CLEANUP, 'c1')],
+               'kill': None, 'label': {'fail_phase': fphase, 'timeout_phase': '-', 'value': 'default'}}
+
+
+def expected_outcome_f(case):
+    f = [it for it in case['items'] if it[1] == 'F']
+    return ('FAIL', 32) if f[0][0] == ASSERT else ('HARD_ERROR', 128)
 
 
 _KILL_BEHS = ('sleep', 'igterm')
@@ -469,7 +508,7 @@ def cases(tier, seed):
         yield c
     sampled = set()
     i = 0
-    for gen in (_part_b(tier), _part_a(tier), _part_r(tier, seed)):
+    for gen in (_part_b(tier), _part_f(tier), _part_a(tier), _part_r(tier, seed)):
         for c in gen:
             kind = (c['part'], (c['kill'] or {}).get('beh'), c['label'].get('hist') if c['part'] == 'A' else None)
             wanted = kind in (('B', 'sleep', None), ('B', 'early', None), ('A', None, 'value-then-none'),
@@ -494,8 +533,11 @@ def model(case):
     cur = DEFAULT_TIMEOUT
     deferred = []
     has_action_use = any(it[0] == ACT for it in case['items'])
+    halted = False
     for phase in PHASE_ORDER:
         if phase in skipped:
+            continue
+        if halted and phase != CLEANUP:
             continue
         if phase == ACT:
             for ids in deferred:
@@ -508,8 +550,14 @@ def model(case):
         for it in case['items']:
             if it[0] != phase:
                 continue
+            if halted and (phase != CLEANUP or halted == CLEANUP):
+                continue
             if it[1] == 'T':
                 cur = it[3]
+            elif it[1] == 'F':
+                exp[it[2]] = cur
+                where[it[2]] = {phase}
+                halted = phase
             elif it[1] == 'S':
                 exp[it[2]] = cur
                 where[it[2]] = {phase}
@@ -612,6 +660,8 @@ def render(case, case_dir):
             body[phase].append('timeout = ' + it[2])
         elif kind == 'S':
             body[phase].append('run ' + b.pgm('path', probe.ctrl(id=it[2]), None))
+        elif kind == 'F':
+            body[phase].append('run ' + b.pgm('path', probe.ctrl(id=it[2], rc=1), None))
         elif kind == 'M':
             body[phase].append('% ' + '%s - %s' % (probe.PROBE, probe.ctrl(id='m', mark=b.cleanup_marker + ':done')))
         elif kind == 'U':
@@ -694,6 +744,10 @@ def _check_m2(case, r, exp, ctx, bad, inconc):
     desc = _describe_ids(case)
     for c in r.calls:
         i = _id_of_call(c)
+        if i is not None and i not in exp and case.get('part') == 'F':
+            bad('process %s was started although the step before it failed (execution must go on with [cleanup] only)' % i,
+                {'m2_record': {k: c[k] for k in ('args', 'shell', 'timeout')}})
+            continue
         if i is None or i not in exp:
             ctx.count('c19.unattributed_calls')
             inconc.append('a subprocess.call could not be attributed to a place: %r' % (c['args'],))
@@ -756,6 +810,9 @@ def run_case(case, ctx):
         if kill is None:
             # ---------------- part A / R : nothing waits, everything must have been reached ---------
             ok = (r.rc == 0 and ident == 'PASS') if mode == 'normal' else (r.rc == 0 and ident == 'completed')
+            if case['part'] == 'F':
+                ok = (ident, r.rc) == expected_outcome_f(case)
+                ctx.count('c19.failure_histories')
             if not ok:
                 inconc.append('generated case did not pass (rc=%r %s): %s' % (r.rc, ident, r.err[:600]))
             for i in exp:
@@ -774,6 +831,8 @@ def run_case(case, ctx):
     ses.drop(d)
     if case['part'] == 'A':
         cls = [('A', pl, lab['phase'], lab['form'], lab['hist'], mode) for pl in lab['places']]
+    elif case['part'] == 'F':
+        cls = [('F', lab['fail_phase'], lab['timeout_phase'], lab['value'], outcome)]
     elif case['part'] == 'B':
         cls = [('B', lab['place'], lab['tag'], lab['phase'], lab['form'], lab['beh'], lab['hist'], mode, outcome)]
     else:
